@@ -33,6 +33,14 @@ CLAIMED = {
              "and one sign; antisymmetry, b+(a-b)==a and (p+d)-p==d follow. Float operands observed only (F13 known finding).",
         design="DESIGN §8 C04",
         technique="Lean 4 proof + model/implementation correspondence"),
+    "C05": dict(
+        text="Theorems over the Lean model of add_months / the year branch of __add__: each month step is the calendar rule "
+             "(adjacent month, same day or the month's own last day in the target year), n months are n single steps, "
+             "ordinal/week dates go via calendar form and back, years clamp per representation (29 Feb->28 Feb, 366->365, "
+             "W53->last week); time, offset, representation kept; result always valid; exact part first, then months, "
+             "then years. The clamp domain is finite and swept exhaustively by the correspondence in the thorough tier.",
+        design="DESIGN §8 C05",
+        technique="Lean 4 proof (induction over month steps) + model/implementation correspondence"),
     "C06": dict(
         text="Theorems over the Lean model of to_time_zone/to_utc and TimeZone.__init__: re-zoning keeps the instant, carries "
              "exactly the requested offset, keeps the representation and yields valid local fields, for every legal offset "
